@@ -376,8 +376,8 @@ func (vr *variableResolver) resolve(ctx *ExecutionContext) (*Value, error) {
 						if sv.IsNil() {
 							return AsValue(nil), nil
 						}
-						if sv.val.Type().AssignableTo(current.Type().Key()) {
-							current = current.MapIndex(sv.val)
+						if sv.val.Type().AssignableTo(current.Type().Key()) && sv.val.Type().Comparable() {
+							current = mapIndexHashable(current, sv.val)
 						} else {
 							return AsValue(nil), nil
 						}
@@ -545,6 +545,17 @@ func (vr *variableResolver) resolve(ctx *ExecutionContext) (*Value, error) {
 	}
 
 	return &Value{val: current, safe: isSafe}, nil
+}
+
+// mapIndexHashable looks up key in m; a key which cannot be hashed (an
+// interface-typed key holding e.g. a slice) is simply not contained.
+func mapIndexHashable(m, key reflect.Value) (value reflect.Value) {
+	defer func() {
+		if recover() != nil {
+			value = reflect.Value{}
+		}
+	}()
+	return m.MapIndex(key)
 }
 
 func (vr *variableResolver) Evaluate(ctx *ExecutionContext) (*Value, *Error) {
